@@ -1,6 +1,10 @@
 """Nondeterministic environment stubs shared by the skeleton harnesses."""
 from pathlib import Path
 
+from vlib import vfs
+
+vfs.install()
+
 
 class FakePath:
     """Stands for a file under the target directory.  Records every mutation."""
@@ -14,6 +18,16 @@ class FakePath:
         self.other_mutations = []
         self.suffix = Path(rel).suffix
         self.name = Path(rel).name
+        vfs.register(self.base + "/" + self.rel, self)
+
+    def exists(self):
+        return not self.vanished
+
+    def is_file(self):
+        return not self.vanished
+
+    def open(self, mode="r", *a, **k):
+        return vfs._open(self, mode, *a, **k)
 
     def read_bytes(self):
         if self.vanished:
@@ -122,6 +136,27 @@ class _Reader:
         return iter(self.readlines())
 
 
+class _FsEntry:
+    """vfs handler for one FakeFS file: the same content and write log, whichever way the file is reached."""
+
+    def __init__(self, fs, path):
+        self.fs, self.path = fs, path
+
+    def read_bytes(self):
+        if self.path not in self.fs.files:
+            raise FileNotFoundError(self.path)
+        return self.fs.files[self.path].encode("utf-8")
+
+    def write_bytes(self, b):
+        if self.fs.unwritable:
+            raise PermissionError(self.path)
+        self.fs.files[self.path] = b.decode("utf-8")
+        self.fs.writes.append((self.path, self.fs.files[self.path]))
+
+    def exists(self):
+        return self.path in self.fs.files
+
+
 class FakeFS:
     """In-memory text files behind an `open` replacement; records every write."""
 
@@ -129,6 +164,8 @@ class FakeFS:
         self.files = {str(k): v for k, v in files.items()}
         self.writes = []
         self.unwritable = unwritable
+        for k in self.files:
+            vfs.register(k, _FsEntry(self, k))
 
     def open(self, path, mode="r", *a, **k):
         p = str(path)
